@@ -501,13 +501,14 @@ func (e *env) dialClientBinary(max int) (net.Conn, error) {
 		return nil, fmt.Errorf("socks connect: %v %v", rep, err)
 	}
 	c.SetDeadline(time.Time{})
-	return &binConn{Conn: c, cmd: cmd}, nil
+	return &binConn{Conn: c, cmd: cmd, logPath: filepath.Join(e.dir, fmt.Sprintf("client%d.log", n))}, nil
 }
 
 type binConn struct {
 	net.Conn
-	cmd  *exec.Cmd
-	once sync.Once
+	cmd     *exec.Cmd
+	once    sync.Once
+	logPath string
 }
 
 func (b *binConn) Close() error {
@@ -867,6 +868,19 @@ func runSysOnce(_ *testing.T, c sysCase, stall time.Duration) error {
 				// all-binaries mode only: the client process is stopped for a while (a suspended laptop);
 				// the proxy's client-side carrier makes no progress while the bridge keeps sending
 				if bc, ok := conn.(*binConn); ok && bc.cmd.Process != nil {
+					// Environment assumption made explicit: the proxies of this rig report NAT "unknown" (no probe
+					// server), so only a client that has learnt it is "unrestricted" (fake STUN) can be matched at
+					// all. The client binary learns that in the first seconds of a SOCKS connection; a stop before
+					// it has done so would leave it "unknown" for good and no proxy of the rig would be compatible -
+					// the property's proviso (a working proxy is available) would not hold. The stop therefore
+					// waits until the client has logged its NAT type (at most 15 s).
+					lim := time.Now().Add(15 * time.Second)
+					for time.Now().Before(lim) {
+						if b, err := os.ReadFile(bc.logPath); err == nil && strings.Contains(string(b), "NAT Type:") {
+							break
+						}
+						time.Sleep(50 * time.Millisecond)
+					}
 					proc := bc.cmd.Process
 					proc.Signal(syscall.SIGSTOP)
 					time.AfterFunc(time.Duration(f.DurMs)*time.Millisecond, func() { proc.Signal(syscall.SIGCONT) })
